@@ -47,6 +47,19 @@ RULE = ("one case = one operation history `item ctor n values ; op ; op ...` run
         "returned are fed back: `cp i l r` = set(i, ask(l,r)), `x i l r` = other.set(i, this.ask(l,r)), `y slice|iter|new` rebuilds the other "
         "tree from the n single-element asks / from ask(0,n-1) (at most three per history). (E) every item once per run (8x thorough) on "
         "n in {255,256,257,511,513,1000,1024,1025} with a short history. Both build profiles are run (debug: debug_assertions on). "
+        "WAVE 4 additions. (D) item `ap` (harness item Ap: range sum with 'add a + d*(q-from) to the element at position q'; the pending tag is "
+        "relative to the node's first element, so push hands the right child a DIFFERENT tag than the left one) and `apap` = Combinator<Ap,Ap>: "
+        "elements are placed by index (the element stored at index i has position i), constructors slice/iter/iterp/iterr, transfers only of a "
+        "single element to its own index; exhaustive small scope (length <= 2 over n <= 3), 5 in 38 random histories, boundary sizes, n up to "
+        "1100, the deep trees; the driver runs the item under the guard 'the Rust item's push (written with left.len) and the model's push "
+        "(re-based by child.lo - lo; lawful for all operands) are the same function on this call' and answers `S any` otherwise. Empty slots: "
+        "`_` = Default::default() stored as an element (one value in ten for min max sum sumadd aff aa str flipz flipb, one in eight for the "
+        "typed sumadd:<T>), `v#len[@md]` = a SumAdd element of length 0 / 2 / 3 for sumadd and smm (one value in eight). (E) stream 2e: "
+        "histories on n = 2^20+1 and n = 2^21 (constructor values as a short cycle `* v1 .. vk`): mod, set at index 0 or 1 (the deepest "
+        "path), ask, lb within 24 of the end, lbr within 24 of the start, then 0-2 random ops - every public function except debug(); 2 per "
+        "run in C02's quick tier, 1 (n = 2^20+1, release profile only) in C01's, 24 in thorough. Every history of the n >= 255 stream (sizes 255 256 257 511 513 771 1000 1024 1025 "
+        "1100) is closed by `dbg`, and the view of every `dbg` carries ` dbg!` unless the string debug() returned is exactly the `{:?}` of the "
+        "vector of the n items ask(i,i) returns afterwards. "
         "Compared: `{:?}` of every returned item (raw), observable value of every ask, every debug() rendering, answers and probe "
         "values of the searches. generator_histogram counts the op kinds and how many asks / sets / modifies / searches pushed a non-identity pending "
         "tag on their way down (`*_pushed_pending_tag`). non-trivial = history with at least one range modification followed by a query")
@@ -58,7 +71,11 @@ ASSUMPTIONS = [
     "floats: NaN is outside every law (PartialOrd); the model orders non-NaN bit patterns by FloatFmt.ordKey (sign-magnitude image, both zeros -> 0; monotonicity proved in C02.float_constants) - that IEEE `<` on non-NaN values is this order is a standard fact, not proved, and cross-checked on every run by the harness's shadow algebra, which compares with the standard library's `<` / `>`; under the additive items floats are integer-valued and small (|x| < 2^(mantissa+1) is checked per history by the driver: `S any` otherwise), so that + and * are exact and the model computes in Int; -0.0 is not fed to the additive items (-0.0 + 0.0 = +0.0: MinAdd/MaxAdd<f64> do not preserve the sign of a zero through a push of the identity tag - equal under ==, the only equality their laws can mean)",
     "the record type Rec, the clone / clone_from / Default checks (`clone!`, `dflt!` markers) and the shadow algebra with merge's tie rule are independent brute-force oracles inside the harness (view side); transfers and rebuilds store the item the model's own ask returned in the plain list (C01.transfer_refines, rebuild_refines: an ask followed by a set / constructor call on the returned item)",
 ]
-TRUSTED_EXTRA = ["harness items affHash/strCat are defined twice (Rust, Lean) and compared by the differential run"]
+ASSUMPTIONS += [
+    "item ap (wave 4): the Lean item's push re-bases the pending progression by child.lo - lo, which is lawful for arbitrary operands; the Rust item's push uses left.len. They are the same function when the left child starts where the node starts and the right child left.len later (C01.ap_push_is_code_push) - every node of a tree whose i-th element has position i, which is what the generator builds. The driver does not rely on that invariant: it evaluates both push functions on every push of the model run (guardItem apItem apGuard, sticky flag) and answers `S any` for a history on which they differ; that the Rust item is apPushCode / apItem otherwise is checked by the differential run like every other item",
+    "the ` dbg!` marker (debug() must be the `{:?}` of the n single-element asks in order) and the placement of elements by index are independent oracles / conventions inside the harness; the model's view of `dbg` never carries the marker",
+]
+TRUSTED_EXTRA = ["harness items affHash/strCat/flip/ap are defined twice (Rust, Lean) and compared by the differential run"]
 MANIFEST = {
     "level": "proof",
     "text": ("Lean 4 theorems over an abstract lawful item (merge only associative, modifiers need not commute; the overridable `update` that "
@@ -69,6 +86,7 @@ MANIFEST = {
              "harness's non-commutative items are proved lawful, and so are Min/Max/MinAdd/MaxAdd over element types whose order ignores part of "
              "the value (records ordered by key, floats with +0.0/-0.0) with the WHOLE element observable - which fixes the tie rule of every "
              "query to merge's own (keyed_lawful, keyed_ties_go_right; an update override with the opposite tie-break is proved unlawful), and Sum over a non-commutative + (sum_noncommutative_lawful); "
+             "a lazy item whose push treats its two children differently (add an arithmetic progression; ap_lawful) is lawful alone and inside Combinator, and the Rust item's push is the model's push on positional trees (ap_push_is_code_push); "
              "feeding a returned item back into set of the same or another tree, or into a constructor, is an ask followed by a set / constructor call (transfer_refines, rebuild_refines); running an item together with the overflow guard changes no observable answer; a Combinator tree answers every set/modify/ask/debug history with the pairs of "
              "its component trees' answers (prod_runs_side_by_side). The hand-written model is tied to rlib_segtree by a differential "
              "correspondence run on every check."),
@@ -80,7 +98,10 @@ MANIFEST = {
 
 
 def harness_args(params, profile):
-    return ["--focus", "C01"]
+    # quick tier: one history on 2^20+1 elements in the release profile, none in the debug profile (which repeats the whole stream
+    # with debug_assertions on; the Lean model is run once per profile and a deep tree costs it ~1 s); C02's quick tier runs
+    # both deep sizes (2^20+1 and 2^21) with every op kind, the thorough tier 24 histories in either profile
+    return ["--focus", "C01", "--large-quick", "1" if profile == "release" else "0"]
 
 
 def nontrivial(case, rec):
